@@ -469,7 +469,7 @@ def run(ctx):
     regen(ctx)
     ok = ctx.prove(THEOREMS)
     rng = ctx.rng
-    n_files = 70 if ctx.quick() else 700
+    n_files = 100 if ctx.quick() else 600
 
     cases, truths, metas = [], [], []
     # the repository's own example first
